@@ -100,6 +100,7 @@ type Gen struct {
 	macroDepth int
 	preDecl    map[string]bool // symbols declared by the spec prelude
 	forbid     []Forbid
+	guardedBy  []GuardedBy
 	freeUsed   map[string]bool
 	orderHeaps []string
 	pass1      map[int]map[string]bool
@@ -109,6 +110,8 @@ type Gen struct {
 type FrameInfo struct {
 	mods     map[*ssa.Function]map[string]bool
 	locs     map[*ssa.Function]map[string]*locSet
+	reads    map[*ssa.Function]map[string]bool // heaps a function (transitively) loads from
+	impure   map[*ssa.Function]bool            // calls something outside the repository / unknown, allocates, or stores
 	restores map[*ssa.Function]map[string]bool
 	sorts    map[string]string
 	fb    *frameBuilder
@@ -216,6 +219,10 @@ func (g *Gen) srcOf(pos token.Pos, kinds ...string) string {
 				}
 			case "call":
 				if _, ok := n.(*ast.CallExpr); ok {
+					return true
+				}
+			case "assign":
+				if _, ok := n.(*ast.AssignStmt); ok {
 					return true
 				}
 			case "star":
